@@ -369,6 +369,7 @@ pub const MALFORMED_TARGETS: &[&str] = &[
     "fri.query_proofs[0].input_proof[0].opening_proof", "fri.query_proofs[0].commit_phase_openings[0].sibling_values",
     "fri.query_proofs[0].commit_phase_openings[0].opening_proof", "fri.query_proofs[0].commit_phase_openings[0].log_arity", "fri.final_poly",
     "public_values", "degree_bits", "instances", "lookup_terminals", "commitments.permutation", "common.lookups", "common.preprocessed.instances",
+    "random_opened.rounds", "random_opened[0]", "random_opened[0][0]", "random_opened[last][0]", "random_opened[0][0][0]",
     "params.log_blowup", "params.num_queries", "params.log_final_poly_len", "params.commit_pow_bits", "params.query_pow_bits",
 ];
 pub const OPS: &[&str] = &["shorten", "lengthen", "empty", "inc", "dec", "toggle"];
@@ -1127,6 +1128,9 @@ macro_rules! batch_body {
             }
             fn alter(&self, st: &mut St, target: &str, op: &str) -> Result<Value, String> {
                 let r = (|| {
+                    if let Some(r) = alter_extra(&mut st.$($pp).+.opening_proof, target, op) {
+                        return r;
+                    }
                     if let Some(r) = alter_fri(fri_mut(&mut st.$($pp).+.opening_proof), target, op) {
                         return r;
                     }
@@ -1212,6 +1216,10 @@ macro_rules! plain_fri_glue {
         }
         fn v_extra(_p: &mut PcsProofT, _v: &mut super::V<F, Challenge>) {}
         fn t_extra(_t: &InnerFri, _v: &mut super::TV) {}
+        #[allow(dead_code)]
+        fn alter_extra(_p: &mut PcsProofT, _target: &str, _op: &str) -> Option<Result<Value, String>> {
+            None
+        }
         fn set_mmcs(r: &mut p3_circuit::CircuitRunner<'_, Challenge>, ops: &[p3_circuit::NonPrimitiveOpId], p: &PcsProofT, enabled: bool) -> Result<(), &'static str> {
             if !enabled {
                 return Ok(());
@@ -1336,6 +1344,23 @@ pub mod batch_two_airs_bb {
         let (mt, _) = mul.random_valid_trace::<F>(true);
         let (ft, fp) = super::fib_trace::<F>(16);
         (vec![super::TwoAir::Mul(mul), super::TwoAir::Fib(p3_circuit::test_utils::FibonacciAir {})], vec![mt, ft], vec![vec![], fp])
+    }
+    plain_batch_glue!();
+    batch_body!(proof);
+}
+
+/// The same two AIRs with the instance WITHOUT preprocessed columns first and different heights: the preprocessed matrix 0
+/// belongs to instance 1 (`matrix_to_instance = [1]`), so matrix index and instance index differ.
+pub mod batch_two_airs_rev_bb {
+    use p3_test_utils::baby_bear_params::*;
+    type AirT = super::TwoAir;
+    std_glue!(BabyBearD4Width16, BABY_BEAR_D4_W16, default_babybear_poseidon2_16);
+    plain_fri_glue!();
+    fn make_instances() -> (Vec<AirT>, Vec<p3_matrix::dense::RowMajorMatrix<F>>, Vec<Vec<F>>) {
+        let mul = super::common::MulAir { degree: 2, rows: 8 };
+        let (mt, _) = mul.random_valid_trace::<F>(true);
+        let (ft, fp) = super::fib_trace::<F>(16);
+        (vec![super::TwoAir::Fib(p3_circuit::test_utils::FibonacciAir {}), super::TwoAir::Mul(mul)], vec![ft, mt], vec![fp, vec![]])
     }
     plain_batch_glue!();
     batch_body!(proof);
@@ -1509,6 +1534,29 @@ pub mod batch_fib_kb_zk {
             v("fri_random_opened_value", super::Loc::Priv, *x);
         }
     }
+    fn alter_extra(p: &mut PcsProofT, target: &str, op: &str) -> Option<Result<Value, String>> {
+        let t = target.strip_prefix("random_opened")?;
+        Some(match t {
+            ".rounds" => super::alter_vec(&mut p.0, op),
+            "[0]" => match p.0.first_mut() {
+                Some(r) => super::alter_vec(r, op),
+                None => Err("no round".into()),
+            },
+            "[0][0]" => match p.0.first_mut().and_then(|r| r.first_mut()) {
+                Some(m) => super::alter_vec(m, op),
+                None => Err("no matrix".into()),
+            },
+            "[last][0]" => match p.0.last_mut().and_then(|r| r.first_mut()) {
+                Some(m) => super::alter_vec(m, op),
+                None => Err("no matrix".into()),
+            },
+            "[0][0][0]" => match p.0.first_mut().and_then(|r| r.first_mut()).and_then(|m| m.first_mut()) {
+                Some(v) => super::alter_vec(v, op),
+                None => Err("no point".into()),
+            },
+            _ => return None,
+        })
+    }
     fn set_mmcs(r: &mut p3_circuit::CircuitRunner<'_, Challenge>, ops: &[p3_circuit::NonPrimitiveOpId], p: &PcsProofT, enabled: bool) -> Result<(), &'static str> {
         if !enabled {
             return Ok(());
@@ -1574,6 +1622,29 @@ pub mod batch_fib_kb_zk_pow {
             v("fri_random_opened_value", super::Loc::Priv, *x);
         }
     }
+    fn alter_extra(p: &mut PcsProofT, target: &str, op: &str) -> Option<Result<Value, String>> {
+        let t = target.strip_prefix("random_opened")?;
+        Some(match t {
+            ".rounds" => super::alter_vec(&mut p.0, op),
+            "[0]" => match p.0.first_mut() {
+                Some(r) => super::alter_vec(r, op),
+                None => Err("no round".into()),
+            },
+            "[0][0]" => match p.0.first_mut().and_then(|r| r.first_mut()) {
+                Some(m) => super::alter_vec(m, op),
+                None => Err("no matrix".into()),
+            },
+            "[last][0]" => match p.0.last_mut().and_then(|r| r.first_mut()) {
+                Some(m) => super::alter_vec(m, op),
+                None => Err("no matrix".into()),
+            },
+            "[0][0][0]" => match p.0.first_mut().and_then(|r| r.first_mut()).and_then(|m| m.first_mut()) {
+                Some(v) => super::alter_vec(v, op),
+                None => Err("no point".into()),
+            },
+            _ => return None,
+        })
+    }
     fn set_mmcs(r: &mut p3_circuit::CircuitRunner<'_, Challenge>, ops: &[p3_circuit::NonPrimitiveOpId], p: &PcsProofT, enabled: bool) -> Result<(), &'static str> {
         if !enabled {
             return Ok(());
@@ -1592,7 +1663,7 @@ pub mod batch_fib_kb_zk_pow {
 // Commands
 // ---------------------------------------------------------------------------------------------------------------
 
-pub const CONFIGS: &[&str] = &["uni_fib_bb", "uni_mul_kb_prep", "uni_gl_d2", "batch_two_airs_bb", "batch_lookups_bb", "batch_circuit_tables_kb", "batch_fib_kb_zk", "batch_fib_kb_zk_pow"];
+pub const CONFIGS: &[&str] = &["uni_fib_bb", "uni_mul_kb_prep", "uni_gl_d2", "batch_two_airs_bb", "batch_lookups_bb", "batch_circuit_tables_kb", "batch_fib_kb_zk", "batch_fib_kb_zk_pow", "batch_two_airs_rev_bb"];
 
 fn make_driver(config: &str) -> Option<Box<dyn Driver>> {
     Some(match config {
@@ -1600,6 +1671,7 @@ fn make_driver(config: &str) -> Option<Box<dyn Driver>> {
         "uni_mul_kb_prep" => uni_mul_kb_prep::new(),
         "uni_gl_d2" => uni_gl_d2::new(),
         "batch_two_airs_bb" => batch_two_airs_bb::new(),
+        "batch_two_airs_rev_bb" => batch_two_airs_rev_bb::new(),
         "batch_lookups_bb" => batch_lookups_bb::new(),
         "batch_fib_kb_zk" | "uni_fib_kb_zk" => batch_fib_kb_zk::new(),
         "batch_fib_kb_zk_pow" => batch_fib_kb_zk_pow::new(),
